@@ -21,7 +21,9 @@ def rgrowTo (v : Vec) (newCap : Nat) : Vec :=
 
 /-- `generic_grow_amortized` (l.2275-2292); the new capacity is whatever the rest of the chunk holds (observed) -/
 def rgrowAmortized (env : Env) (v : Vec) (additional : Nat) : Option Vec :=
-  if v.len + additional ≤ env.capIn then some (rgrowTo v env.capIn) else none
+  if env.fits (max (max (v.cap * 2) (v.len + additional)) env.minCap) ∧ v.len + additional ≤ env.capIn then
+    some (rgrowTo v env.capIn)
+  else none
 
 /-- `generic_reserve` (l.1869) / `generic_reserve_one` (l.2265) -/
 def rreserve (env : Env) (v : Vec) (additional : Nat) : Option Vec :=
